@@ -13,7 +13,7 @@ from . import values as V
 
 ONE = LinExpr(1)
 BUILTINS = set("""len range abs max min sum int float bool str list tuple dict set enumerate zip isinstance hasattr
-getattr setattr print open sorted round super reversed any all type map filter id repr divmod pow complex
+getattr setattr print open sorted round super reversed any all type map filter id repr divmod pow complex slice
 ValueError TypeError IndexError KeyError MemoryError NotImplemented NotImplementedError AttributeError
 Exception RuntimeError AssertionError ZeroDivisionError StopIteration Warning DeprecationWarning object
 True False None""".split())
@@ -323,7 +323,11 @@ class Interp(object):
         return Flow(fr.state)
 
     def st_Assert(self, st, fr):
-        self.ev(st.test, fr)
+        v = self.ev(st.test, fr)
+        tv = truthiness(v)
+        if tv is False:
+            # an assertion that is false for the (generic, consistent) arguments of this run: the call cannot get past it
+            self.emit("type-error", fr, st, what="assertion `%s` is false for every consistent input: AssertionError" % " ".join(ast.unparse(st.test).split())[:80])
         return Flow(fr.state)
 
     def st_Delete(self, st, fr):
